@@ -12,7 +12,7 @@ from pathlib import Path
 from tcv import gen, pipeline as pl
 from tcv.core import VERIF
 
-RULE = ('golden corpus corpus/c12_golden.jsonl (408 specs / ~1400 tasks captured at the pinned commit: every data class, group '
+RULE = ('golden corpus corpus/c12_golden.jsonl (474 specs / ~1600 tasks captured at the pinned commit: every data class, group '
         'form none/single/multi-level/module-derived, namespace depth 0-3, adversarial and plain values, placeholders, Path '
         'parameters, name mode) replayed on model and implementation, plus seeded generated specs of the same family; '
         'compared: key, data path, run-info path, log path (literal), files on disk after computing; '
@@ -54,18 +54,37 @@ def describe_tasks(chain, data, spec):
     return tasks
 
 
+def model_key(spec, t, mo):
+    mode = spec.get('mode', 'param')
+    if mode == 'param':
+        return mo['key']
+    if spec.get('declaring_file'):
+        # name mode: the storage key is the NAME of the declaring config = its file name without the last extension
+        return '.'.join(spec['declaring_file'].split('.')[:-1])
+    return t['config']
+
+
 def check_model(ctx, label, spec, tasks, results):
     """model vs captured/implementation expectation for every task of one spec"""
     mode = spec.get('mode', 'param')
-    for t, mo in zip(tasks, results):
+    # paths from the Lean model (TCV.Key.dataPath / runInfoPath / logPath); the Python transcription is only a cross-check
+    preqs = [{'m': 'key', 'op': 'path', 'slug': t['slug'], 'key': model_key(spec, t, mo), 'ext': t['ext']} for t, mo in zip(tasks, results)]
+    mpaths = ctx.model.many(preqs)
+    for t, mo, mp in zip(tasks, results, mpaths):
         case = {'source': label, 'module': spec.get('module'), 'task': t['fullname'], 'mode': mode}
         nontrivial = bool(t['inputs']) or mo.get('registry') != 'None'
         ctx.case(case, nontrivial=nontrivial)
         exp = t['expect']
-        key = mo['key'] if mode == 'param' else t['config']
+        key = model_key(spec, t, mo)
+        if mode != 'param':
+            ctx.count(f'{label}:name-mode-dotted' if '.' in key else f'{label}:name-mode-plain')
         got = {'key': key}
         if t['persist']:
-            got.update(expected_paths(t['slug'], key, t['ext']))
+            if 'data' not in mp:
+                ctx.diverge(f'{label}:model-path', case, exp, mp); return False
+            got.update({k: '/'.join(mp[k]) for k in ('data', 'run_info', 'log')})
+            if '.' not in key and got != {'key': key, **expected_paths(t['slug'], key, t['ext'])}:
+                ctx.diverge(f'{label}:model-path-vs-transcription', case, expected_paths(t['slug'], key, t['ext']), got); return False
         else:
             got['data'] = None
         ctx.count(f'{label}:{"param" if mode == "param" else "name"}-mode')
@@ -120,7 +139,7 @@ def run(ctx, generated_only=False):
     for i in range(n):
         rng = ctx.rng('gen', i)
         spec = gen.gen_key_spec(rng, alphabet=None if i % 3 else gen.SAFE, keys=gen.SAFE if i % 2 else None,
-                                mode='name' if i % 10 == 9 else 'param')
+                                mode='name' if i % 10 >= 8 else 'param', dotted=True)
         b = pl.materialize(spec, root / f's{i}', modname=spec['module'])
         data = root / f'sd{i}'
         chain, err = pl.build(b, data, parameter_mode=(spec['mode'] == 'param'))
